@@ -283,5 +283,33 @@ func TestVerifC20(t *testing.T) {
 	for i := 0; i < cases; i++ {
 		emit(fmt.Sprintf("hb%d", i), genHeapOpsBig(r.fork(uint64(700000+i)), 30+r.intn(length)))
 	}
+	// queues that hold hundreds of elements and are then drained by Pop and Remove (what a backing
+	// array does when it grows past, and shrinks below, a size threshold), with Fix calls in between
+	huge := 6
+	if vthorough() {
+		huge = 200
+	}
+	for i := 0; i < huge; i++ {
+		rr := r.fork(uint64(900000 + i))
+		var ops []string
+		size := 0
+		for k := 0; k < 70+rr.intn(400); k++ {
+			ops = append(ops, fmt.Sprintf("P%d", rr.intn(1000)))
+			size++
+		}
+		for size > 0 {
+			switch c := rr.intn(10); {
+			case c < 6:
+				ops = append(ops, "O")
+				size--
+			case c < 8:
+				ops = append(ops, fmt.Sprintf("R%d", rr.intn(size)))
+				size--
+			default:
+				ops = append(ops, fmt.Sprintf("F%d:%d", rr.intn(size), rr.intn(1000)))
+			}
+		}
+		emit(fmt.Sprintf("hh%d", i), ops)
+	}
 	o.stat("C20", map[string]interface{}{"heap_cases": n, "heap_distinct": len(distinct), "exhaustive_len": L, "exhaustive_cases": cnt})
 }
